@@ -27,6 +27,9 @@ class FakeFile(object):
             raise ValueError('I/O operation on closed file.')
         if not isinstance(s, str):
             raise TypeError('write() argument must be str, not %s' % type(s).__name__)
+        if getattr(self.fs, 'fault', None) == 'write':
+            self.fs.fault = None
+            raise OSError(28, 'No space left on device')
         self._buf.append(s)
         if sum(map(len, self._buf)) > 8192:
             self.flush()
@@ -155,6 +158,9 @@ class FakeOS(object):
 
     def fsync(self, fd):
         self.log.append(('fsync', fd))
+        if getattr(self, 'fault', None) == 'fsync':
+            self.fault = None
+            raise OSError(5, 'Input/output error')
 
     def getpid(self):
         return 4242
